@@ -116,6 +116,47 @@ def run {α : Type} [DecidableEq α] (b : Buf α) : List (In α) → Buf α × L
 
 def deliveries {α : Type} [DecidableEq α] (b : Buf α) (ins : List (In α)) : List (W × α) := (run b ins).2
 
+/-- The user-event part of `delegate.MergeRemoteState` as source text fragments,
+regenerated from serf/delegate.go (`SerfModel/Gen/PushPullReplay.lean`). -/
+structure ReplayShape where
+  /-- guard and argument of `eventClock.Witness(…)` -/
+  witnessGuard : String
+  witnessArg : String
+  /-- where `eventJoinIgnore` is read from -/
+  ignoreFrom : String
+  /-- outer guard, inner test and assignment of the cut-off raise -/
+  raiseGuard : String
+  raiseTest : String
+  raiseAssign : String
+  /-- the test-and-assign runs between `eventLock.Lock()` and `eventLock.Unlock()` -/
+  raiseUnderLock : Bool
+  /-- order of the three parts in the function body -/
+  order : List String
+  /-- the replay loop: what it ranges over, whether nil slots are skipped, where time,
+  name and payload of each replayed message come from, and the handler call -/
+  rangeOver : String
+  skipsNil : Bool
+  ltimeFrom : String
+  innerRange : String
+  nameFrom : String
+  payloadFrom : String
+  handlerArg : String
+  /-- number of `handleUserEvent` calls in the whole function (all inside the loop) -/
+  handlerCalls : Nat
+  deriving DecidableEq, Repr, Inhabited
+
+/-- The shape `witnessRemote`, `raiseMin`, `flatten` and `stepIn` model:
+`if pp.EventLTime > 0 { eventClock.Witness(pp.EventLTime - 1) }`, then
+`if isJoin && eventJoinIgnore { lock; if pp.EventLTime > eventMinTime { eventMinTime = pp.EventLTime }; unlock }`,
+then every event of every non-nil slot, in order, through `handleUserEvent`. -/
+def modelledReplayShape : ReplayShape :=
+  { witnessGuard := "pp.EventLTime > 0", witnessArg := "pp.EventLTime - 1",
+    ignoreFrom := "d.serf.eventJoinIgnore.Load().(bool)", raiseGuard := "isJoin && eventJoinIgnore",
+    raiseTest := "pp.EventLTime > d.serf.eventMinTime", raiseAssign := "d.serf.eventMinTime = pp.EventLTime",
+    raiseUnderLock := true, order := ["witness", "raise", "replay"],
+    rangeOver := "pp.Events", skipsNil := true, ltimeFrom := "slot.LTime", innerRange := "slot.Events",
+    nameFrom := "event.Name", payloadFrom := "event.Payload", handlerArg := "&userEvent", handlerCalls := 1 }
+
 /-- Every Lamport time carried by an input. -/
 def In.times {α : Type} : In α → List W
   | .gossip lt _ => [lt]
